@@ -29,7 +29,8 @@ Done == /\ l = Len(Rec) + 1
                   \o ";covTokens=" \o ToString(Cardinality(cov))
                   \o ";matrixCellsMissing=" \o ToString(Cardinality({c \in GenCells \cup DocCells : <<"call", c[1], c[2]>> \notin cov}))
                   \o ";parserCellsMissing=" \o ToString(Cardinality({c \in ParseCells : <<"sweep", c[1], c[2]>> \notin cov}))
-                  \o ";channelsMissing=" \o ToString(Cardinality({c \in Channels : \A y \in cov : ~(y[1] = "channel" /\ y[2] = c)}))
+                  \o ";channelsMissing=" \o ToString(Cardinality({c \in Channels \ (CliChannels \cup {"Cli(key files)"}) : \A y \in cov : ~(y[1] = "channel" /\ y[2] = c)}))
+                  \o ";cliChannelsMissing=" \o ToString(Cardinality({c \in CliChannels \cup {"Cli(key files)"} : \A y \in cov : ~(y[1] = "channel" /\ y[2] = c)}))
                   \o ";featureSets=" \o ToString(Cardinality({y \in cov : y[1] = "build" /\ y[2] = "rcgen"}))
                   \o ";genBackends=" \o ToString(Cardinality({x[2] : x \in {y \in cov : y[1] = "gen"}}))
                   \o ";registers=" \o ToString(Cardinality(DOMAIN reg)))
